@@ -73,7 +73,11 @@ class Ctx:
         r = self.rules.setdefault(self.cur_rule or "?", [0, 0])
         r[0] += 1
         full_key = "%s:%s" % (self.cur_rule, key)
-        self.violations.append(Violation(self.cur_rule, full_key, msg, loc, detail))
+        for v in self.violations:
+            if v.key == full_key:
+                v.detail["instances"] = v.detail.get("instances", 1) + 1
+                return
+        self.violations.append(Violation(self.cur_rule, full_key, msg, loc, dict(detail or {})))
 
     def check(self, cond, key, msg, loc=None, detail=None, sample=None):
         if cond:
@@ -136,7 +140,7 @@ def finish(ctx, module_doc=""):
         with open(rp, "w") as f:
             json.dump({"property": ctx.pid, "rule": v.rule, "key": v.key, "message": v.msg,
                        "location": v.loc, "detail": v.detail, "tier": ctx.tier}, f, indent=1, default=str)
-        print("  %s: %s%s" % (v.key, v.msg, (" at " + v.loc) if v.loc else ""))
+        print("  %s: %s%s" % (v.key, v.msg if len(v.msg) < 700 else v.msg[:700] + " ...[truncated, full text in replay file]", (" at " + v.loc) if v.loc else ""))
         print("VIOLATION property=%s replay=%s" % (ctx.pid, rp))
     wall = time.time() - ctx.t0
     cov = {
